@@ -48,6 +48,10 @@ pub fn quantifier_leaves() -> Vec<Form> {
         for n in [0u64, 1, 2, 3, 4, 5] {
             v.push(Form::N(n, g.clone()));
         }
+        // counts no machine integer holds: never reached, whatever the operands
+        for d in ["18446744073709551615", "18446744073709551616", "340282366920938463463374607431768211456", "00018446744073709551616"] {
+            v.push(Form::NBig(d.to_string(), g.clone()));
+        }
     }
     v
 }
